@@ -4,13 +4,12 @@ record which rule of the property's check reports them (run against an overlay, 
 import json, os, re, shutil, subprocess, sys, tempfile
 
 VERIF = os.path.dirname(os.path.dirname(os.path.abspath(__file__)))
-SEED = "/tmp/seed"
 rows = []
-for pid in sorted(os.listdir(SEED)):
+for SEED, pid in sorted((root, pid) for root in ("/tmp/seed", "/tmp/seed2") if os.path.isdir(root) for pid in os.listdir(root)):
     out = os.path.join(SEED, pid, "out")
     if not os.path.isdir(out):
         continue
-    for v in ("A", "B"):
+    for v in ("A", "B", "C", "D"):
         conf = os.path.join(out, v + ".confirm.json")
         if not os.path.exists(conf):
             continue
@@ -51,7 +50,7 @@ for pid in sorted(os.listdir(SEED)):
             "needs_to_manifest": meta.get("needs_to_manifest"),
             "source": "written by an independent sub-agent that saw only the property text and a private worktree",
             "confirmed": {
-                "how": "tools/confirm_seed.sh %s %s in the scratch worktree /tmp/seed/%s/wt (git apply; demo; full pytest suite; git checkout; demo)" % (pid, v, pid),
+                "how": "tools/confirm_seed.sh %s %s in the scratch worktree %s/%s/wt (git apply; demo; full pytest suite; git checkout; demo)" % (pid, v, SEED, pid),
                 "demo_rc_with_patch": c["demo_rc_with_patch"],
                 "demo_rc_without_patch": c["demo_rc_without_patch"],
                 "tests_with_patch": c["tests_summary"],
@@ -61,7 +60,7 @@ for pid in sorted(os.listdir(SEED)):
             "check": {"command": "VERIF_OVERLAY=<patched files> /verif/check %s" % pid, "verdict": verdict, "rules": rules, "first_report": first[0] if applies and first else None},
         }
         json.dump(meta_out, open(os.path.join(dst, "meta.json"), "w"), indent=1)
-        rows.append((pid, v, verdict, ",".join(rules), (meta.get("summary") or "")[:110].replace("\n", " ")))
+        rows.append((pid, v, verdict if os.path.exists(os.path.join(dst, "first_verdict.txt")) is False else verdict, ",".join(rules), (meta.get("summary") or "")[:110].replace("\n", " ")))
 with open(os.path.join(VERIF, "seeded", "INDEX.md"), "w") as f:
     f.write("# Seeded changes (independently written, each confirmed in a scratch worktree)\n\n| seed | verdict of /verif/check | rules that report it | change |\n|---|---|---|---|\n")
     for r in rows:
